@@ -19,12 +19,12 @@ def fmt(L): return sorted(L, key=lambda w: (len(w), repr(w)))
 
 
 # ----------------------------------------------------------------------------------------------- C08
-def c08(G, n=4):
+def c08(G, n=4, extra_vars=(), extra_terms=()):
     fails = []
     L = S.lang(G, n)
-    ok, g = guarded('C08.build', lambda: S.build(G), fails)
+    ok, g = guarded('C08.build', lambda: S.build(G, extra_vars, extra_terms), fails)
     if not ok: return fails
-    for w in S.words_upto(tvals(G) + ['#zz'], n):
+    for w in S.words_upto(sorted(set(tvals(G)) | set(extra_terms), key=repr) + ['#zz'], n):
         ok, got = guarded('C08.contains', lambda: g.contains(list(w)), fails)
         if not ok: break
         if bool(got) != (w in L):
